@@ -399,6 +399,13 @@ class Interp:
             val = node.value
             if val is None:
                 raise Unsupported(f"global {name} has no value")
+            if getattr(self, "cache_globals", False):
+                # a module-level name denotes ONE object for the whole run
+                gk = (m2.rel, name)
+                gc_ = self.__dict__.setdefault("_global_cache", {})
+                if gk not in gc_:
+                    gc_[gk] = self.eval(val, Env(m2, {}))
+                return gc_[gk]
             return self.eval(val, Env(m2, {}))
         if isinstance(node, tuple) and node[0] == "ext":
             _, modname, attr = node
@@ -1672,6 +1679,8 @@ class Interp:
             return [Tmpl.lit(ch) for ch in v.text()]
         if self._is_namedtuple(v):
             return [v.attrs[f_[0]] for f_ in self._record_fields(v.cls)]
+        if isinstance(v, Opaque) and "__iter__" in v.methods:
+            return list(v.methods["__iter__"](self, [], {}, site))
         if isinstance(v, _MapIter):
             return v.items
         if isinstance(v, ClassVal) and v.kind == "enum":
